@@ -25,24 +25,47 @@ LEVEL_TEXT = ("Partial proof. (1) Decided in Lean on tables regenerated from fit
               "entry point) against the pipeline's rows for the same trees and against the closed-form value for trees linear in their parameters, "
               "and the exact-sum identity on the values the API itself reports and on the values the traced routines returned inside the call; trees with integer "
               "constants (repeated ones included) and data sets built so that one parameter is snapped to zero are fitted through both entry points too; step (4) "
-              "(tree code length) is compared with k ln n + sum ln|c| and with the Lean model on PRNG label lists.")
+              "(tree code length) is compared with k ln n + sum ln|c| and with the Lean model on PRNG label lists. (3) Proved in Lean (Props/C20c) over the model of the composition "
+              "single_function = optimise_fun ; convert_params ; aifeyn_complexity ; sum (Model/SingleFit over C10's Model/Optim) and the optimiser table REGENERATED from test_all.py, which carries per "
+              "(parameter-count arm, log_opt) whether the optimisation ran in linear or log10 space (flag_three: its initial expression evaluated for the arm, or-ed with the assignments on the arm's path): "
+              "flag_per_option_setting / findBranch_flag - the flag says linear exactly outside (log_opt and <= 2 parameters), for every nparam; fisher_input_is_backtransformed - for every row of the table "
+              "(arm x log_opt x sign branch) and both back-transformations (normal exit, timeout handler) the vector handed to the Fisher/code-length routine is sign_i*10**x_i exactly when the arm ran in "
+              "log space and x itself exactly when it ran in linear space, and it is the point chi2_fcn evaluated the likelihood at; single_terms_at_reported_point - whenever single_function returns, its "
+              "three values come from ONE call of the Fisher routine on exactly the (theta, chi2) optimise_fun returned, and under MinimiserSpec nll(theta) = chi2 in every option setting; "
+              "backtransform_flag_needed (+ wrong_flag_reports_optimiser_vector, wrong_flag_row_rejected) - with the flag wrong for (log_opt, two parameters) the reported parameters are log10|a| and do not "
+              "reproduce the reported value (concrete instance). Tied to the code by a scripted-minimiser run of the REAL single_function (test_all.minimize replaced by a PRNG-scripted oracle, the Fisher "
+              "routine by a recorder) against the model through the line protocol (op singlefit): returned (nll, DL, params) and the (theta, chi2) handed on, log_opt x 0..3 parameters. Sampled on the "
+              "unmodified code over the option space the property quantifies over: log_opt in {False, True} x 0, 1, 2, 3 parameters x every sign pattern of the true parameters x both entry points, each "
+              "against the closed form, against the pipeline stages (real test_all.main -> test_all_Fisher.main -> match.main on a library holding the tree as its own unique function) run under the SAME "
+              "options, and 'the reported parameters reproduce the reported NLL' with an independent likelihood.")
 TECHNIQUE = ("Lean 4 decision over the regenerated assembly of single_function + Lean 4 proof that the Fisher-stage and matching-stage copies of the snapping / "
              "code-length logic coincide on the identity chain (hand models of C07/C05) + differential runs of the two real routines on the same inputs + "
-             "differential runs single API vs pipeline vs closed form")
+             "differential runs single API vs pipeline vs closed form over log_opt x parameter count x sign pattern x entry point + Lean 4 proof over the regenerated optimiser table that the "
+             "single-tree API hands the back-transformed optimum to the Fisher routine + scripted-minimiser correspondence of the real single_function with that model")
 RULE = ("one case = one (data set, tree) fitted through single_function and fit_from_string, compared with the pipeline row of the same line and the closed form; "
         "non-trivial = the tree has >=1 parameter, is linear in them and is not within 5% of a snapping threshold; distinct by (data seed, tree) - library trees, "
         "integer-constant trees and designed snapped-parameter data sets.  Step (4): one case = one PRNG label list through aifeyn_complexity as single_function calls it, "
         "non-trivial = it holds an integer or a parameter.  "
         "Fisher-vs-match: one case = one (data set, linear model, theta) pushed through the real convert_params and then, via the stage files, through the real "
-        "match.main; distinct by (number of parameters, basis functions, per-coordinate threshold class and sign); non-trivial = at least one parameter")
+        "match.main; distinct by (number of parameters, basis functions, per-coordinate threshold class and sign); non-trivial = at least one parameter.  "
+        "Option space: one case = one (tree with 0..3 parameters, data set whose weighted-least-squares solution is a drawn point of a given sign pattern, log_opt) fitted through single_function, "
+        "fit_from_string and the pipeline stages under the same options; distinct by (formula, log_opt, sign pattern, numpy seed); non-trivial = at least one parameter.  "
+        "Scripted single_function: one case = one (tree, log_opt, Niter, Nconv, scripted sequence of minimiser outcomes incl. NaN/inf/ties/exceptions); non-trivial = the loop was entered")
 EXPLANATION = LEVEL_TEXT
 TRUSTED = ["harness/oracle_mdl.py (closed form)", "harness/extractors/single.py + harness/extractors/_norm_c20.py (symbolic reading of single_function; normalisations N1-N8 of its docstring: "
            "local names/temporaries replaced by the value they hold, tuple/chained/unpacking assignment, conditional expression vs if/else and result variable vs early return (per-path returned value), "
            "not/and/or/bool() of flag parameters, import spelling of a callee, one level of straight-line helper/closure inlining, print/pass/docstrings without value; sums keep order and association)",
            "hand models ESRVerif/Model/Codelen.lean and ESRVerif/Model/Match.lean (tied to the code by the correspondences of C07 and C05, and here by the direct "
            "differential run of the two real routines)", "'%.7e' text round-off between stages (decisions compared exactly away from |Nsteps-1| < 1e-6 and at exactly "
-           "representable thresholds; magnitudes to 1e-6)"]
-ASSUMPTIONS = ["MinimiserSpec (numerical): sampled with tolerance 5e-3 in NLL/DL", "the formula-string entry point is compared on formulas whose conversion returns the same label list",
+           "representable thresholds; magnitudes to 1e-6)",
+           "hand models ESRVerif/Model/Optim.lean (C10's model of optimise_fun's selection loop and back-transformation) and ESRVerif/Model/SingleFit.lean (steps 2-5 of single_function), tied by the "
+           "scripted-minimiser correspondences of C10 (optimise_fun) and of this check (single_function: exact on the likelihood term, 1e-12 on DL, 1e-9 on parameters)",
+           "harness/extractors/optim.py (sign table, flag_three per (arm, log_opt), comparison operators, constants, back-transformation)",
+           "scipy.optimize.minimize(method=BFGS) - not modelled; sampled against the closed form"]
+ASSUMPTIONS = ["MinimiserSpec (numerical): sampled with tolerance 5e-3 in NLL/DL",
+               "option space: true parameters with log10|p| in [0.1, 1.5] (inside the search box pmin=0, pmax=3 of test_all.main, handed to the single API too), Niter=30, Nconv=5 (defaults of single_function, "
+               "handed to the pipeline stage as Niter_params=[30], Nconv_params=[5]); data sets on which no parameter is within 5% of its snapping threshold; 'reported parameters reproduce the reported NLL' to 1e-7 relative",
+               "single_terms_at_reported_point: MinimiserSpec (scipy returns fun = objective(x) and x of the length of the start point); returned value below the 1e100 threshold; nparam >= 1", "the formula-string entry point is compared on formulas whose conversion returns the same label list",
                "fisher_vs_match_identity_chain: hfin (snapping never makes the likelihood infinite) - holds for every tree linear in its parameters with a Gaussian likelihood; "
                "positive finite Hessian diagonal; sympy/numpy at the identity chain (empty substitution loop, identity Jacobian) return (theta, diag) unchanged - checked by the differential run",
                "the matching stage reads negloglike_comp<n>.dat (optimiser output) and derivs_comp<n>.dat (Fisher stage), never the Fisher stage's reported parameters (codelen_comp<n>_deriv.dat has no reader)"]
@@ -53,10 +76,12 @@ FALLBACK = {'Aifeyn': "real aifeyn_complexity vs the Lean model (op aifeyn) and 
             'Codelen': "the statement of fisher_vs_match_identity_chain checked directly on the two REAL routines (real convert_params -> stage files -> real match.main, exact-threshold rows "
                        "included; fisher-vs-match:*), and hfin_needed's predicted difference on the real routines (corr:hfin_needed); the model-vs-code comparison of this table is C07's",
             'Match': "as Codelen (the same differential run drives the real match.main); the model-vs-code comparison of this table is C05's",
+            'Optim': "real single_function under a scripted minimiser vs the Lean model (op singlefit: what is handed to the Fisher routine, returned nll / DL / parameters; corr:singlefit-scripted) at "
+                     "escalated depth, plus the option-space runs (log_opt x 0..3 parameters x sign patterns) against the closed form; the model-vs-code comparison of this table is C10's",
             'Single': "the real routines traced inside the real single_function (optimise_fun, run_sympify, convert_params, aifeyn_complexity wrapped wherever fit_single reaches them): "
                       "order of the calls = theorem call_order, returned nll bit-identical to convert_params(...)[1], returned DL bit-identical to (cp[1] + cp[3]) + aifeyn_complexity(...) "
                       "(corr:single-trace), on library trees and integer-constant trees, plus single API vs closed form vs pipeline row"}
-MODELLED = ["fit_single.py:single_function", "fit_single.py:fit_from_string", "test_all_Fisher.py:convert_params", "match.py:main"]
+MODELLED = ["fit_single.py:single_function", "fit_single.py:fit_from_string", "test_all_Fisher.py:convert_params", "match.py:main", "test_all.py:optimise_fun", "test_all.py:chi2_fcn"]
 
 TOL = 5e-3
 BASIS = [["x", "a"], ["inv"], ["+", "*", "-", "/", "pow"]]
